@@ -15,7 +15,7 @@ Combined Scheme cut_all from cut_mut, cut_list_mut, cut_inner_mut.
 Section Proofs.
 Variable N : Type.
 Variable eff : Type.
-Variable apply : eff -> N -> N * bool.
+Variable apply : eff -> N -> N * status.
 
 Notation node := (node eff).
 Notation nodes := (nodes eff).
@@ -32,48 +32,63 @@ Notation revert_to := (revert_to N).
 
 (* unfolding equations (mutual fixpoints do not refold under cbn) *)
 Lemma exec_NStep e s jr : exec (NStep e) (s, jr) =
-  let '(n', ok) := apply e (s_nat s) in ((mkst n' (s_logs s) (s_evs s) (s_stor s), jr), ok).
+  let '(n', r) := apply e (s_nat s) in ((mkst n' (s_logs s) (s_evs s) (s_stor s), jr), r).
 Proof. reflexivity. Qed.
 Lemma exec_Write k v s jr : exec (Write k v) (s, jr) =
-  if Z.eqb (s_stor s k) v then ((s, jr), true)
-  else ((mkst (s_nat s) (s_logs s) (s_evs s) (upd (s_stor s) k v), JStorage N k (s_stor s k) :: jr), true).
+  if Z.eqb (s_stor s k) v then ((s, jr), Go)
+  else ((mkst (s_nat s) (s_logs s) (s_evs s) (upd (s_stor s) k v), JStorage N k (s_stor s k) :: jr), Go).
 Proof. reflexivity. Qed.
 Lemma exec_Log t s jr : exec (Log t) (s, jr) =
-  ((mkst (s_nat s) (t :: s_logs s) (s_evs s) (s_stor s), JLog N :: jr), true).
+  ((mkst (s_nat s) (t :: s_logs s) (s_evs s) (s_stor s), JLog N :: jr), Go).
 Proof. reflexivity. Qed.
 Lemma exec_Action body evs s jr : exec (Action body evs) (s, jr) =
-  let '((s1, jr1), ok) := exec_list body (s, jr) in
-  if ok then ((mkst (s_nat s1) (s_logs s1) (rev evs ++ s_evs s1) (s_stor s1),
-               JNative N (s_nat s) (length evs) :: jr1), true)
-  else ((mkst (s_nat s) (s_logs s1) (s_evs s1) (s_stor s1), jr1), false).
+  let '((s1, jr1), r) := exec_list body (s, jr) in
+  match r with
+  | Go => ((mkst (s_nat s1) (s_logs s1) (rev evs ++ s_evs s1) (s_stor s1),
+            JNative N (s_nat s) (length evs) :: jr1), Go)
+  | Stop => ((mkst (s_nat s) (s_logs s1) (s_evs s1) (s_stor s1), jr1), Stop)
+  | Panic => ((s1, jr1), Panic)
+  end.
 Proof. reflexivity. Qed.
 Lemma exec_Frame body en caught s jr : exec (Frame body en caught) (s, jr) =
-  let '((s1, jr1), ok) := exec_list body (s, jr) in
-  if ok && endk_ok en then ((s1, jr1), true) else (revert_to (length jr) s1 jr1, caught).
+  let '((s1, jr1), r) := exec_list body (s, jr) in
+  match r with
+  | Panic => ((s1, jr1), Panic)
+  | Go => if endk_ok en then ((s1, jr1), Go) else (revert_to (length jr) s1 jr1, caught_status caught)
+  | Stop => (revert_to (length jr) s1 jr1, caught_status caught)
+  end.
 Proof. reflexivity. Qed.
-Lemma exec_nil d : exec_list (nnil) d = (d, true).
+Lemma exec_nil d : exec_list (nnil) d = (d, Go).
 Proof. reflexivity. Qed.
 Lemma exec_cons t r d : exec_list (ncons t r) d =
-  let '(d1, ok) := exec t d in if ok then exec_list r d1 else (d1, false).
+  let '(d1, st) := exec t d in match st with Go => exec_list r d1 | _ => (d1, st) end.
 Proof. reflexivity. Qed.
 Lemma spec_NStep e s : spec (NStep e) s =
-  let '(n', ok) := apply e (s_nat s) in (mkst n' (s_logs s) (s_evs s) (s_stor s), ok).
+  let '(n', r) := apply e (s_nat s) in (mkst n' (s_logs s) (s_evs s) (s_stor s), r).
 Proof. reflexivity. Qed.
-Lemma spec_Write k v s : spec (Write k v) s = (mkst (s_nat s) (s_logs s) (s_evs s) (upd (s_stor s) k v), true).
+Lemma spec_Write k v s : spec (Write k v) s = (mkst (s_nat s) (s_logs s) (s_evs s) (upd (s_stor s) k v), Go).
 Proof. reflexivity. Qed.
-Lemma spec_Log t s : spec (Log t) s = (mkst (s_nat s) (t :: s_logs s) (s_evs s) (s_stor s), true).
+Lemma spec_Log t s : spec (Log t) s = (mkst (s_nat s) (t :: s_logs s) (s_evs s) (s_stor s), Go).
 Proof. reflexivity. Qed.
 Lemma spec_Action body evs s : spec (Action body evs) s =
-  let '(s1, ok) := spec_list body s in
-  if ok then (mkst (s_nat s1) (s_logs s1) (rev evs ++ s_evs s1) (s_stor s1), true) else (s1, false).
+  let '(s1, r) := spec_list body s in
+  match r with
+  | Go => (mkst (s_nat s1) (s_logs s1) (rev evs ++ s_evs s1) (s_stor s1), Go)
+  | _ => (s1, r)
+  end.
 Proof. reflexivity. Qed.
 Lemma spec_Frame body en caught s : spec (Frame body en caught) s =
-  let '(s1, ok) := spec_list body s in if ok && endk_ok en then (s1, true) else (s, caught).
+  let '(s1, r) := spec_list body s in
+  match r with
+  | Panic => (s1, Panic)
+  | Go => if endk_ok en then (s1, Go) else (s, caught_status caught)
+  | Stop => (s, caught_status caught)
+  end.
 Proof. reflexivity. Qed.
-Lemma spec_nil s : spec_list (nnil) s = (s, true).
+Lemma spec_nil s : spec_list (nnil) s = (s, Go).
 Proof. reflexivity. Qed.
 Lemma spec_cons t r s : spec_list (ncons t r) s =
-  let '(s1, ok) := spec t s in if ok then spec_list r s1 else (s1, false).
+  let '(s1, st) := spec t s in match st with Go => spec_list r s1 | _ => (s1, st) end.
 Proof. reflexivity. Qed.
 
 Ltac unf H := rewrite ?exec_NStep, ?exec_Write, ?exec_Log, ?exec_Action, ?exec_Frame, ?exec_nil, ?exec_cons,
@@ -258,89 +273,124 @@ Qed.
 (* 1. shape of the journal after running a subtree; no action => no nativeChange *)
 
 Definition shape_node (t : node) : Prop :=
-  forall s jr s' jr' ok, exec t (s, jr) = ((s', jr'), ok) ->
+  forall s jr s' jr' r, exec t (s, jr) = ((s', jr'), r) ->
   exists es, jr' = es ++ jr /\ (has_action eff t = false -> nojn es = true).
 Definition shape_nodes (l : nodes) : Prop :=
-  forall s jr s' jr' ok, exec_list l (s, jr) = ((s', jr'), ok) ->
+  forall s jr s' jr' r, exec_list l (s, jr) = ((s', jr'), r) ->
   exists es, jr' = es ++ jr /\ (has_action_list eff l = false -> nojn es = true).
 
 Lemma shape : (forall t, shape_node t) /\ (forall l, shape_nodes l).
 Proof.
   apply (node_all eff shape_node shape_nodes); unfold shape_node, shape_nodes.
   - (* NStep *)
-    intros e s jr s' jr' ok H. unf H. destruct (apply e (s_nat s)) as [n' o]. inversion H; subst.
+    intros e s jr s' jr' r H. unf H. destruct (apply e (s_nat s)) as [n' o]. inversion H; subst.
     exists []. split; [reflexivity|reflexivity].
   - (* Write *)
-    intros k v s jr s' jr' ok H. unf H. destruct (Z.eqb (s_stor s k) v); inversion H; subst.
+    intros k v s jr s' jr' r H. unf H. destruct (Z.eqb (s_stor s k) v); inversion H; subst.
     + exists []. split; reflexivity.
     + exists [JStorage N k (s_stor s k)]. split; reflexivity.
   - (* Log *)
-    intros t s jr s' jr' ok H. unf H. inversion H; subst. exists [JLog N]. split; reflexivity.
+    intros t s jr s' jr' r H. unf H. inversion H; subst. exists [JLog N]. split; reflexivity.
   - (* Action *)
-    intros body IH evs s jr s' jr' ok H. unf H.
-    destruct (exec_list body (s, jr)) as [[s1 jr1] ok1] eqn:E.
+    intros body IH evs s jr s' jr' r H. unf H.
+    destruct (exec_list body (s, jr)) as [[s1 jr1] r1] eqn:E.
     destruct (IH _ _ _ _ _ E) as (es & -> & _).
-    destruct ok1; inversion H; subst.
+    destruct r1; inversion H; subst.
     + exists (JNative N (s_nat s) (length evs) :: es). split; [reflexivity|discriminate].
     + exists es. split; [reflexivity|discriminate].
+    + exists es. split; [reflexivity|discriminate].
   - (* Frame *)
-    intros body IH en caught s jr s' jr' ok H. unf H.
-    destruct (exec_list body (s, jr)) as [[s1 jr1] ok1] eqn:E.
+    intros body IH en caught s jr s' jr' r H. unf H.
+    destruct (exec_list body (s, jr)) as [[s1 jr1] r1] eqn:E.
     destruct (IH _ _ _ _ _ E) as (es & -> & Hn).
-    destruct (ok1 && endk_ok en).
+    destruct r1; [destruct (endk_ok en)| |].
     + inversion H; subst. exists es. split; [reflexivity|exact Hn].
     + rewrite revert_to_app in H. inversion H; subst. exists []. split; reflexivity.
+    + rewrite revert_to_app in H. inversion H; subst. exists []. split; reflexivity.
+    + inversion H; subst. exists es. split; [reflexivity|exact Hn].
   - (* nnil *)
-    intros s jr s' jr' ok H. inversion H; subst. exists []. split; reflexivity.
+    intros s jr s' jr' r H. inversion H; subst. exists []. split; reflexivity.
   - (* ncons *)
-    intros t IHt r IHr s jr s' jr' ok H. unf H.
-    destruct (exec t (s, jr)) as [[s1 jr1] ok1] eqn:E.
+    intros t IHt l IHl s jr s' jr' r H. unf H.
+    destruct (exec t (s, jr)) as [[s1 jr1] r1] eqn:E.
     destruct (IHt _ _ _ _ _ E) as (es1 & -> & Hn1).
-    destruct ok1.
-    + destruct (IHr _ _ _ _ _ H) as (es2 & -> & Hn2).
+    destruct r1.
+    + destruct (IHl _ _ _ _ _ H) as (es2 & -> & Hn2).
       exists (es2 ++ es1). split; [apply app_assoc|].
       intro Ha. apply orb_false_iff in Ha as [A B]. rewrite nojn_app, Hn1, Hn2; auto.
+    + inversion H; subst. exists es1. split; [reflexivity|].
+      intro Ha. apply orb_false_iff in Ha as [A B]. auto.
     + inversion H; subst. exists es1. split; [reflexivity|].
       intro Ha. apply orb_false_iff in Ha as [A B]. auto.
 Qed.
 
 (* ------------------------------------------------------------------ *)
-(* 2. the journal invariant: the segment written by a well-formed subtree undoes exactly
-      what the subtree did *)
+(* 2. the journal invariant: unless Go code panicked, the segment written by a well-formed subtree undoes
+      exactly what the subtree did *)
 
 Definition inv_node (t : node) : Prop :=
-  forall s jr s' jr' ok, wf_f eff t = true -> exec t (s, jr) = ((s', jr'), ok) ->
+  forall s jr s' jr' r, wf_f eff t = true -> exec t (s, jr) = ((s', jr'), r) -> r <> Panic ->
   exists es, jr' = es ++ jr /\ full s es s'.
 
 Definition inv_nodes (l : nodes) : Prop :=
-  (forall s jr s' jr' ok, wf_fl eff l = true -> exec_list l (s, jr) = ((s', jr'), ok) ->
+  (forall s jr s' jr' r, wf_fl eff l = true -> exec_list l (s, jr) = ((s', jr'), r) -> r <> Panic ->
      exists es, jr' = es ++ jr /\ full s es s') /\
-  (forall dirty s jr s' jr' ok, wf_a eff l dirty = true -> exec_list l (s, jr) = ((s', jr'), ok) ->
+  (forall dirty s jr s' jr' r, wf_a eff l dirty = true -> exec_list l (s, jr) = ((s', jr'), r) -> r <> Panic ->
      exists es, jr' = es ++ jr /\ epart s es s' /\ (if dirty then nojn es = true else clean s es)).
 
 Lemma full_nil_same s : full s [] s.
 Proof. apply seq_refl. Qed.
 
+Lemma go_np : Go <> Panic. Proof. discriminate. Qed.
+Lemma stop_np : Stop <> Panic. Proof. discriminate. Qed.
+
+(* a step sequence t; rest inside a closure, where t is a frame-level node (Action / Frame) *)
+Lemma inv_a_step (t : node) (l : nodes) :
+  inv_node t -> inv_nodes l -> (forall t', shape_node t') ->
+  forall dirty s jr s' jr' r,
+    wf_f eff t = true -> (dirty = true -> has_action eff t = false) -> wf_a eff l dirty = true ->
+    (let '(d1, st) := exec t (s, jr) in match st with Go => exec_list l d1 | _ => (d1, st) end) = ((s', jr'), r) ->
+    r <> Panic ->
+    exists es, jr' = es ++ jr /\ epart s es s' /\ (if dirty then nojn es = true else clean s es).
+Proof.
+  intros IHt [_ IHa] SH dirty s jr s' jr' r Wt Wd Wr H NP.
+  destruct (exec t (s, jr)) as [[s1 jr1] r1] eqn:E.
+  assert (NP1 : r1 <> Panic) by (destruct r1; try discriminate; inversion H; subst; exact NP).
+  destruct (IHt _ _ _ _ _ Wt E NP1) as (es1 & -> & F1).
+  assert (NJ1 : dirty = true -> nojn es1 = true).
+  { intro D. destruct (SH t _ _ _ _ _ E) as (es' & EQ & Hn).
+    apply app_inv_tail in EQ. subst es'. apply Hn. apply Wd. exact D. }
+  destruct r1.
+  - destruct (IHa dirty _ _ _ _ _ Wr H NP) as (es2 & -> & EP & CL).
+    exists (es2 ++ es1). split; [apply app_assoc|]. split.
+    + eapply epart_trans; [eapply full_epart; exact F1|exact EP].
+    + destruct dirty; [rewrite nojn_app, CL, NJ1; reflexivity|eapply clean_trans; eassumption].
+  - inversion H; subst. exists es1. split; [reflexivity|]. split; [eapply full_epart; exact F1|].
+    destruct dirty; [apply NJ1; reflexivity|eapply full_clean; exact F1].
+  - exfalso. apply NP1. reflexivity.
+Qed.
+
 Lemma inv : (forall t, inv_node t) /\ (forall l, inv_nodes l).
 Proof.
   apply (node_all eff inv_node inv_nodes); unfold inv_node, inv_nodes.
   - (* NStep: not allowed in contract code *)
-    intros e s jr s' jr' ok W. discriminate.
+    intros e s jr s' jr' r W. discriminate.
   - (* Write *)
-    intros k v s jr s' jr' ok _ H. unf H.
+    intros k v s jr s' jr' r _ H _. unf H.
     destruct (Z.eqb (s_stor s k) v) eqn:E; inversion H; subst.
     + exists []. split; [reflexivity|apply full_nil_same].
     + exists [JStorage N k (s_stor s k)]. split; [reflexivity|].
       unfold full, undo_all. cbn. repeat split. intro x. cbn. unfold upd.
       destruct (Z.eqb x k) eqn:X; [apply Z.eqb_eq in X; subst; reflexivity|reflexivity].
   - (* Log *)
-    intros t s jr s' jr' ok _ H. unf H. inversion H; subst.
+    intros t s jr s' jr' r _ H _. unf H. inversion H; subst.
     exists [JLog N]. split; [reflexivity|]. unfold full, undo_all. cbn. repeat split.
   - (* Action *)
-    intros body [_ IHa] evs s jr s' jr' ok W H. rewrite ?wf_f_Action, ?wf_f_Frame in W. unf H.
-    destruct (exec_list body (s, jr)) as [[s1 jr1] ok1] eqn:E.
-    destruct (IHa false _ _ _ _ _ W E) as (es & -> & EP & CL).
-    destruct ok1; inversion H; subst; clear H.
+    intros body [_ IHa] evs s jr s' jr' r W H NP. rewrite ?wf_f_Action, ?wf_f_Frame in W. unf H.
+    destruct (exec_list body (s, jr)) as [[s1 jr1] r1] eqn:E.
+    assert (NP1 : r1 <> Panic) by (destruct r1; try discriminate; inversion H; subst; exact NP).
+    destruct (IHa false _ _ _ _ _ W E NP1) as (es & -> & EP & CL).
+    destruct r1; inversion H; subst; clear H.
     + exists (JNative N (s_nat s) (length evs) :: es). split; [reflexivity|].
       apply full_intro.
       * destruct EP as (A&B&C). unfold epart, ulogs, uevs, ustor. cbn [fold_left s_logs s_evs s_stor].
@@ -351,109 +401,77 @@ Proof.
     + exists es. split; [reflexivity|]. apply full_intro.
       * exact EP.
       * cbn [s_nat]. destruct CL as [C|C]; [apply unat_nojn; exact C|apply C].
+    + exfalso. apply NP1. reflexivity.
   - (* Frame *)
-    intros body [IHf _] en caught s jr s' jr' ok W H. rewrite ?wf_f_Action, ?wf_f_Frame in W. unf H.
-    destruct (exec_list body (s, jr)) as [[s1 jr1] ok1] eqn:E.
-    destruct (IHf _ _ _ _ _ W E) as (es & -> & F).
-    destruct (ok1 && endk_ok en).
+    intros body [IHf _] en caught s jr s' jr' r W H NP. rewrite ?wf_f_Action, ?wf_f_Frame in W. unf H.
+    destruct (exec_list body (s, jr)) as [[s1 jr1] r1] eqn:E.
+    assert (NP1 : r1 <> Panic) by (destruct r1; try discriminate; inversion H; subst; exact NP).
+    destruct (IHf _ _ _ _ _ W E NP1) as (es & -> & F).
+    destruct r1; [destruct (endk_ok en)| |].
     + inversion H; subst. exists es. split; [reflexivity|exact F].
     + rewrite revert_to_app in H. inversion H; subst. exists []. split; [reflexivity|].
-      unfold full. cbn. exact (seq_sym _ _ (seq_sym _ _ F)).
+      unfold full. cbn. exact F.
+    + rewrite revert_to_app in H. inversion H; subst. exists []. split; [reflexivity|].
+      unfold full. cbn. exact F.
+    + exfalso. apply NP1. reflexivity.
   - (* nnil *)
     split.
-    + intros s jr s' jr' ok _ H. inversion H; subst. exists []. split; [reflexivity|apply full_nil_same].
-    + intros dirty s jr s' jr' ok _ H. inversion H; subst. exists []. split; [reflexivity|].
+    + intros s jr s' jr' r _ H _. inversion H; subst. exists []. split; [reflexivity|apply full_nil_same].
+    + intros dirty s jr s' jr' r _ H _. inversion H; subst. exists []. split; [reflexivity|].
       split; [repeat split|]. destruct dirty; [reflexivity|left; reflexivity].
   - (* ncons *)
-    intros t IHt r [IHf IHa]. split.
-    + intros s jr s' jr' ok W H. unfw W. apply andb_true_iff in W as [Wt Wr].
+    intros t IHt l IHl. pose proof IHl as [IHf IHa]. split.
+    + intros s jr s' jr' r W H NP. unfw W. apply andb_true_iff in W as [Wt Wr].
       unf H.
-      destruct (exec t (s, jr)) as [[s1 jr1] ok1] eqn:E.
-      destruct (IHt _ _ _ _ _ Wt E) as (es1 & -> & F1).
-      destruct ok1.
-      * destruct (IHf _ _ _ _ _ Wr H) as (es2 & -> & F2).
+      destruct (exec t (s, jr)) as [[s1 jr1] r1] eqn:E.
+      assert (NP1 : r1 <> Panic) by (destruct r1; try discriminate; inversion H; subst; exact NP).
+      destruct (IHt _ _ _ _ _ Wt E NP1) as (es1 & -> & F1).
+      destruct r1.
+      * destruct (IHf _ _ _ _ _ Wr H NP) as (es2 & -> & F2).
         exists (es2 ++ es1). split; [apply app_assoc|eapply full_trans; eassumption].
       * inversion H; subst. exists es1. split; [reflexivity|exact F1].
-    + intros dirty s jr s' jr' ok W H. unf H.
+      * exfalso. apply NP1. reflexivity.
+    + intros dirty s jr s' jr' r W H NP. unf H.
       destruct t as [e|k v|tg|ab aevs|fb fen fc].
       * (* NStep: the closure is dirty from here on *)
         unfw W. unf H.
         destruct (apply e (s_nat s)) as [n' o].
         destruct o.
-        -- destruct (IHa true _ _ _ _ _ W H) as (es2 & -> & EP & NJ).
+        -- destruct (IHa true _ _ _ _ _ W H NP) as (es2 & -> & EP & NJ).
            exists es2. split; [reflexivity|]. split; [exact EP|].
            destruct dirty; [exact NJ|left; exact NJ].
         -- inversion H; subst. exists []. split; [reflexivity|]. split; [repeat split|].
            destruct dirty; [reflexivity|left; reflexivity].
+        -- inversion H; subst. exfalso. apply NP. reflexivity.
       * (* Write *)
-        unfw W.
-        destruct (exec (Write k v) (s, jr)) as [[s1 jr1] ok1] eqn:E.
-        destruct (IHt _ _ _ _ _ eq_refl E) as (es1 & -> & F1).
-        assert (NJ1 : nojn es1 = true).
-        { destruct (proj1 shape (Write k v) _ _ _ _ _ E) as (es' & EQ & Hn).
-          apply app_inv_tail in EQ. subst es'. apply Hn. reflexivity. }
-        assert (ok1 = true) by (unf E; destruct (Z.eqb (s_stor s k) v); inversion E; reflexivity). subst ok1.
-        destruct (IHa dirty _ _ _ _ _ W H) as (es2 & -> & EP & CL).
-        exists (es2 ++ es1). split; [apply app_assoc|]. split.
-        -- eapply epart_trans; [eapply full_epart; exact F1|exact EP].
-        -- destruct dirty; [rewrite nojn_app, CL, NJ1; reflexivity|eapply clean_trans; eassumption].
+        unfw W. apply (inv_a_step (Write k v) l IHt IHl (proj1 shape) dirty s jr s' jr' r eq_refl (fun _ => eq_refl) W H NP).
       * (* Log *)
-        unfw W.
-        destruct (exec (Log tg) (s, jr)) as [[s1 jr1] ok1] eqn:E.
-        destruct (IHt _ _ _ _ _ eq_refl E) as (es1 & -> & F1).
-        assert (NJ1 : nojn es1 = true).
-        { destruct (proj1 shape (Log tg) _ _ _ _ _ E) as (es' & EQ & Hn).
-          apply app_inv_tail in EQ. subst es'. apply Hn. reflexivity. }
-        assert (ok1 = true) by (unf E; inversion E; reflexivity). subst ok1.
-        destruct (IHa dirty _ _ _ _ _ W H) as (es2 & -> & EP & CL).
-        exists (es2 ++ es1). split; [apply app_assoc|]. split.
-        -- eapply epart_trans; [eapply full_epart; exact F1|exact EP].
-        -- destruct dirty; [rewrite nojn_app, CL, NJ1; reflexivity|eapply clean_trans; eassumption].
+        unfw W. apply (inv_a_step (Log tg) l IHt IHl (proj1 shape) dirty s jr s' jr' r eq_refl (fun _ => eq_refl) W H NP).
       * (* nested Action *)
         unfw W. apply andb_true_iff in W as [W Wr]. apply andb_true_iff in W as [Wt Wd].
-        destruct (exec (Action ab aevs) (s, jr)) as [[s1 jr1] ok1] eqn:E.
-        destruct (IHt _ _ _ _ _ Wt E) as (es1 & -> & F1).
-        assert (NJ1 : dirty = true -> nojn es1 = true).
-        { intro D. subst dirty. destruct (proj1 shape (Action ab aevs) _ _ _ _ _ E) as (es' & EQ & Hn).
-          apply app_inv_tail in EQ. subst es'. apply Hn. apply negb_true_iff in Wd. exact Wd. }
-        destruct ok1.
-        -- destruct (IHa dirty _ _ _ _ _ Wr H) as (es2 & -> & EP & CL).
-           exists (es2 ++ es1). split; [apply app_assoc|]. split.
-           ++ eapply epart_trans; [eapply full_epart; exact F1|exact EP].
-           ++ destruct dirty; [rewrite nojn_app, CL, NJ1; reflexivity|eapply clean_trans; eassumption].
-        -- inversion H; subst. exists es1. split; [reflexivity|]. split; [eapply full_epart; exact F1|].
-           destruct dirty; [apply NJ1; reflexivity|eapply full_clean; exact F1].
+        apply (inv_a_step (Action ab aevs) l IHt IHl (proj1 shape) dirty s jr s' jr' r Wt); try assumption.
+        intro D. subst dirty. apply negb_true_iff in Wd. exact Wd.
       * (* EVM call made by the closure *)
         unfw W. apply andb_true_iff in W as [W Wr]. apply andb_true_iff in W as [Wt Wd].
-        destruct (exec (Frame fb fen fc) (s, jr)) as [[s1 jr1] ok1] eqn:E.
-        destruct (IHt _ _ _ _ _ Wt E) as (es1 & -> & F1).
-        assert (NJ1 : dirty = true -> nojn es1 = true).
-        { intro D. subst dirty. destruct (proj1 shape (Frame fb fen fc) _ _ _ _ _ E) as (es' & EQ & Hn).
-          apply app_inv_tail in EQ. subst es'. apply Hn. apply negb_true_iff in Wd. exact Wd. }
-        destruct ok1.
-        -- destruct (IHa dirty _ _ _ _ _ Wr H) as (es2 & -> & EP & CL).
-           exists (es2 ++ es1). split; [apply app_assoc|]. split.
-           ++ eapply epart_trans; [eapply full_epart; exact F1|exact EP].
-           ++ destruct dirty; [rewrite nojn_app, CL, NJ1; reflexivity|eapply clean_trans; eassumption].
-        -- inversion H; subst. exists es1. split; [reflexivity|]. split; [eapply full_epart; exact F1|].
-           destruct dirty; [apply NJ1; reflexivity|eapply full_clean; exact F1].
+        apply (inv_a_step (Frame fb fen fc) l IHt IHl (proj1 shape) dirty s jr s' jr' r Wt); try assumption.
+        intro D. subst dirty. apply negb_true_iff in Wd. exact Wd.
 Qed.
 
 (* ------------------------------------------------------------------ *)
 (* 3. simulation: implementation and specification proceed in step *)
 
 Definition sim_node (t : node) : Prop :=
-  forall si jr ss si' jr' oki ss' oks, wf_f eff t = true -> seq si ss ->
-  exec t (si, jr) = ((si', jr'), oki) -> spec t ss = (ss', oks) ->
-  oki = oks /\ (oki = true -> seq si' ss').
+  forall si jr ss si' jr' ri ss' rs, wf_f eff t = true -> seq si ss ->
+  exec t (si, jr) = ((si', jr'), ri) -> spec t ss = (ss', rs) ->
+  ri = rs /\ (ri = Go -> seq si' ss').
 
 Definition sim_nodes (l : nodes) : Prop :=
-  (forall si jr ss si' jr' oki ss' oks, wf_fl eff l = true -> seq si ss ->
-     exec_list l (si, jr) = ((si', jr'), oki) -> spec_list l ss = (ss', oks) ->
-     oki = oks /\ (oki = true -> seq si' ss')) /\
-  (forall dirty si jr ss si' jr' oki ss' oks, wf_a eff l dirty = true -> seq si ss ->
-     exec_list l (si, jr) = ((si', jr'), oki) -> spec_list l ss = (ss', oks) ->
-     oki = oks /\ (oki = true -> seq si' ss')).
+  (forall si jr ss si' jr' ri ss' rs, wf_fl eff l = true -> seq si ss ->
+     exec_list l (si, jr) = ((si', jr'), ri) -> spec_list l ss = (ss', rs) ->
+     ri = rs /\ (ri = Go -> seq si' ss')) /\
+  (forall dirty si jr ss si' jr' ri ss' rs, wf_a eff l dirty = true -> seq si ss ->
+     exec_list l (si, jr) = ((si', jr'), ri) -> spec_list l ss = (ss', rs) ->
+     ri = rs /\ (ri = Go -> seq si' ss')).
 
 Lemma sim_write si ss k v :
   seq si ss ->
@@ -466,53 +484,76 @@ Proof.
   - intro x. unfold upd. destruct (Z.eqb x k); [reflexivity|apply D].
 Qed.
 
+(* one frame-level node followed by the rest of a closure body *)
+Lemma sim_a_step (t : node) (l : nodes) :
+  sim_node t -> sim_nodes l ->
+  forall dirty si jr ss si' jr' ri ss' rs,
+    wf_f eff t = true -> wf_a eff l dirty = true -> seq si ss ->
+    (let '(d1, st) := exec t (si, jr) in match st with Go => exec_list l d1 | _ => (d1, st) end) = ((si', jr'), ri) ->
+    (let '(s1, st) := spec t ss in match st with Go => spec_list l s1 | _ => (s1, st) end) = (ss', rs) ->
+    ri = rs /\ (ri = Go -> seq si' ss').
+Proof.
+  intros IHt [_ IHa] dirty si jr ss si' jr' ri ss' rs Wt Wr Q HI HS.
+  destruct (exec t (si, jr)) as [[s1 jr1] r1] eqn:EI.
+  destruct (spec t ss) as [t1 r2] eqn:ES.
+  destruct (IHt _ _ _ _ _ _ _ _ Wt Q EI ES) as [-> HQ].
+  destruct r2.
+  - exact (IHa dirty _ _ _ _ _ _ _ _ Wr (HQ eq_refl) HI HS).
+  - inversion HI; inversion HS; subst. split; [reflexivity|discriminate].
+  - inversion HI; inversion HS; subst. split; [reflexivity|discriminate].
+Qed.
+
 Lemma sim : (forall t, sim_node t) /\ (forall l, sim_nodes l).
 Proof.
   apply (node_all eff sim_node sim_nodes); unfold sim_node, sim_nodes.
-  - intros e si jr ss si' jr' oki ss' oks W. discriminate.
+  - intros e si jr ss si' jr' ri ss' rs W. discriminate.
   - (* Write *)
-    intros k v si jr ss si' jr' oki ss' oks _ Q HI HS. unf HI. unf HS. inversion HS; subst.
+    intros k v si jr ss si' jr' ri ss' rs _ Q HI HS. unf HI. unf HS. inversion HS; subst.
     pose proof (sim_write si ss k v Q) as SW.
     destruct (Z.eqb (s_stor si k) v); inversion HI; subst; split; auto.
   - (* Log *)
-    intros t si jr ss si' jr' oki ss' oks _ (A&B&C&D) HI HS. unf HI. unf HS. inversion HI; inversion HS; subst.
+    intros t si jr ss si' jr' ri ss' rs _ (A&B&C&D) HI HS. unf HI. unf HS. inversion HI; inversion HS; subst.
     split; [reflexivity|]. intros _. repeat split; cbn; congruence.
   - (* Action *)
-    intros body [_ IHa] evs si jr ss si' jr' oki ss' oks W Q HI HS.
+    intros body [_ IHa] evs si jr ss si' jr' ri ss' rs W Q HI HS.
     rewrite ?wf_f_Action, ?wf_f_Frame in W. unf HI. unf HS.
-    destruct (exec_list body (si, jr)) as [[s1 jr1] ok1] eqn:EI.
-    destruct (spec_list body ss) as [t1 ok2] eqn:ES.
+    destruct (exec_list body (si, jr)) as [[s1 jr1] r1] eqn:EI.
+    destruct (spec_list body ss) as [t1 r2] eqn:ES.
     destruct (IHa false _ _ _ _ _ _ _ _ W Q EI ES) as [-> HQ].
-    destruct ok2; inversion HI; inversion HS; subst; split; try reflexivity; try discriminate.
+    destruct r2; inversion HI; inversion HS; subst; split; try reflexivity; try discriminate.
     intros _. destruct (HQ eq_refl) as (A&B&C&D). repeat split; cbn; congruence.
   - (* Frame *)
-    intros body [IHf _] en caught si jr ss si' jr' oki ss' oks W Q HI HS.
+    intros body [IHf _] en caught si jr ss si' jr' ri ss' rs W Q HI HS.
     rewrite ?wf_f_Action, ?wf_f_Frame in W. unf HI. unf HS.
-    destruct (exec_list body (si, jr)) as [[s1 jr1] ok1] eqn:EI.
-    destruct (spec_list body ss) as [t1 ok2] eqn:ES.
+    destruct (exec_list body (si, jr)) as [[s1 jr1] r1] eqn:EI.
+    destruct (spec_list body ss) as [t1 r2] eqn:ES.
     destruct (IHf _ _ _ _ _ _ _ _ W Q EI ES) as [-> HQ].
-    destruct (proj1 (proj2 inv body) _ _ _ _ _ W EI) as (es & -> & F).
-    destruct (ok2 && endk_ok en) eqn:OK.
-    + inversion HI; inversion HS; subst. split; [reflexivity|]. intros _.
-      apply andb_true_iff in OK as [-> _]. apply HQ. reflexivity.
-    + rewrite revert_to_app in HI. inversion HI; inversion HS; subst. split; [reflexivity|].
+    destruct r2; [destruct (endk_ok en)| |].
+    + inversion HI; inversion HS; subst. split; [reflexivity|]. intros _. apply HQ. reflexivity.
+    + destruct (proj1 (proj2 inv body) _ _ _ _ _ W EI go_np) as (es & -> & F).
+      rewrite revert_to_app in HI. inversion HI; inversion HS; subst. split; [reflexivity|].
       intros _. eapply seq_trans; [exact F|exact Q].
+    + destruct (proj1 (proj2 inv body) _ _ _ _ _ W EI stop_np) as (es & -> & F).
+      rewrite revert_to_app in HI. inversion HI; inversion HS; subst. split; [reflexivity|].
+      intros _. eapply seq_trans; [exact F|exact Q].
+    + inversion HI; inversion HS; subst. split; [reflexivity|discriminate].
   - (* nnil *)
     split.
-    + intros si jr ss si' jr' oki ss' oks _ Q HI HS. inversion HI; inversion HS; subst. auto.
-    + intros dirty si jr ss si' jr' oki ss' oks _ Q HI HS. inversion HI; inversion HS; subst. auto.
+    + intros si jr ss si' jr' ri ss' rs _ Q HI HS. inversion HI; inversion HS; subst. auto.
+    + intros dirty si jr ss si' jr' ri ss' rs _ Q HI HS. inversion HI; inversion HS; subst. auto.
   - (* ncons *)
-    intros t IHt r [IHf IHa]. split.
-    + intros si jr ss si' jr' oki ss' oks W Q HI HS.
+    intros t IHt l IHl. pose proof IHl as [IHf IHa]. split.
+    + intros si jr ss si' jr' ri ss' rs W Q HI HS.
       unfw W. apply andb_true_iff in W as [Wt Wr].
       unf HI. unf HS.
-      destruct (exec t (si, jr)) as [[s1 jr1] ok1] eqn:EI.
-      destruct (spec t ss) as [t1 ok2] eqn:ES.
+      destruct (exec t (si, jr)) as [[s1 jr1] r1] eqn:EI.
+      destruct (spec t ss) as [t1 r2] eqn:ES.
       destruct (IHt _ _ _ _ _ _ _ _ Wt Q EI ES) as [-> HQ].
-      destruct ok2.
+      destruct r2.
       * exact (IHf _ _ _ _ _ _ _ _ Wr (HQ eq_refl) HI HS).
       * inversion HI; inversion HS; subst. split; [reflexivity|discriminate].
-    + intros dirty si jr ss si' jr' oki ss' oks W Q HI HS.
+      * inversion HI; inversion HS; subst. split; [reflexivity|discriminate].
+    + intros dirty si jr ss si' jr' ri ss' rs W Q HI HS.
       unf HI. unf HS.
       destruct t as [e|k v|tg|ab aevs|fb fen fc].
       * (* NStep *)
@@ -522,34 +563,13 @@ Proof.
         destruct o.
         -- refine (IHa true _ _ _ _ _ _ _ _ W _ HI HS). repeat split; cbn; assumption.
         -- inversion HI; inversion HS; subst. split; [reflexivity|discriminate].
-      * unfw W.
-        destruct (exec (Write k v) (si, jr)) as [[s1 jr1] ok1] eqn:EI.
-        destruct (spec (Write k v) ss) as [t1 ok2] eqn:ES.
-        destruct (IHt _ _ _ _ _ _ _ _ eq_refl Q EI ES) as [-> HQ].
-        destruct ok2.
-        -- exact (IHa dirty _ _ _ _ _ _ _ _ W (HQ eq_refl) HI HS).
         -- inversion HI; inversion HS; subst. split; [reflexivity|discriminate].
-      * unfw W.
-        destruct (exec (Log tg) (si, jr)) as [[s1 jr1] ok1] eqn:EI.
-        destruct (spec (Log tg) ss) as [t1 ok2] eqn:ES.
-        destruct (IHt _ _ _ _ _ _ _ _ eq_refl Q EI ES) as [-> HQ].
-        destruct ok2.
-        -- exact (IHa dirty _ _ _ _ _ _ _ _ W (HQ eq_refl) HI HS).
-        -- inversion HI; inversion HS; subst. split; [reflexivity|discriminate].
+      * unfw W. exact (sim_a_step (Write k v) l IHt IHl dirty _ _ _ _ _ _ _ _ eq_refl W Q HI HS).
+      * unfw W. exact (sim_a_step (Log tg) l IHt IHl dirty _ _ _ _ _ _ _ _ eq_refl W Q HI HS).
       * unfw W. apply andb_true_iff in W as [W Wr]. apply andb_true_iff in W as [Wt Wd].
-        destruct (exec (Action ab aevs) (si, jr)) as [[s1 jr1] ok1] eqn:EI.
-        destruct (spec (Action ab aevs) ss) as [t1 ok2] eqn:ES.
-        destruct (IHt _ _ _ _ _ _ _ _ Wt Q EI ES) as [-> HQ].
-        destruct ok2.
-        -- exact (IHa dirty _ _ _ _ _ _ _ _ Wr (HQ eq_refl) HI HS).
-        -- inversion HI; inversion HS; subst. split; [reflexivity|discriminate].
+        exact (sim_a_step (Action ab aevs) l IHt IHl dirty _ _ _ _ _ _ _ _ Wt Wr Q HI HS).
       * unfw W. apply andb_true_iff in W as [W Wr]. apply andb_true_iff in W as [Wt Wd].
-        destruct (exec (Frame fb fen fc) (si, jr)) as [[s1 jr1] ok1] eqn:EI.
-        destruct (spec (Frame fb fen fc) ss) as [t1 ok2] eqn:ES.
-        destruct (IHt _ _ _ _ _ _ _ _ Wt Q EI ES) as [-> HQ].
-        destruct ok2.
-        -- exact (IHa dirty _ _ _ _ _ _ _ _ Wr (HQ eq_refl) HI HS).
-        -- inversion HI; inversion HS; subst. split; [reflexivity|discriminate].
+        exact (sim_a_step (Frame fb fen fc) l IHt IHl dirty _ _ _ _ _ _ _ _ Wt Wr Q HI HS).
 Qed.
 
 (* ------------------------------------------------------------------ *)
@@ -563,34 +583,34 @@ Theorem journal_refines_spec : forall body en s,
   (forall k, s_stor si k = s_stor ss k).
 Proof.
   intros body en s W. unfold run_impl, run_spec.
-  destruct (exec (Frame body en false) (s, [])) as [[si jr] oki] eqn:EI.
-  destruct (spec (Frame body en false) s) as [ss oks] eqn:ES.
-  unf EI. unf ES.
-  destruct (exec_list body (s, [])) as [[s1 jr1] ok1] eqn:LI.
-  destruct (spec_list body s) as [t1 ok2] eqn:LS.
+  rewrite exec_Frame, spec_Frame.
+  destruct (exec_list body (s, [])) as [[s1 jr1] r1] eqn:LI.
+  destruct (spec_list body s) as [t1 r2] eqn:LS.
   destruct (proj1 (proj2 sim body) _ _ _ _ _ _ _ _ W (seq_refl s) LI LS) as [-> HQ].
-  destruct (proj1 (proj2 inv body) _ _ _ _ _ W LI) as (es & -> & F).
-  destruct (ok2 && endk_ok en) eqn:OK.
-  - inversion EI; inversion ES; subst. apply andb_true_iff in OK as [-> _].
-    destruct (HQ eq_refl) as (A&B&C&D). auto.
-  - change (@nil jentry) with (@nil jentry) in EI.
-    rewrite (revert_to_app es [] s1) in EI. inversion EI; inversion ES; subst.
-    destruct F as (A&B&C&D). auto.
+  destruct r2; [destruct (endk_ok en)| |].
+  - destruct (HQ eq_refl) as (A&B&C&D). auto.
+  - destruct (proj1 (proj2 inv body) _ _ _ _ _ W LI go_np) as (es & -> & F).
+    rewrite (revert_to_app es [] s1). cbn. destruct F as (A&B&C&D). auto.
+  - destruct (proj1 (proj2 inv body) _ _ _ _ _ W LI stop_np) as (es & -> & F).
+    rewrite (revert_to_app es [] s1). cbn. destruct F as (A&B&C&D). auto.
+  - repeat split.
 Qed.
 
-(* a failed transaction leaves the state DB exactly as it found it (nothing to commit) *)
+(* a failed transaction hands Commit exactly the state it started from (an aborted one commits nothing at all) *)
 Theorem failed_tx_no_effect : forall body en s,
   wf_fl eff body = true ->
   snd (run_impl N eff apply body en s) = false ->
   seq (fst (run_impl N eff apply body en s)) s.
 Proof.
-  intros body en s W. pose proof (journal_refines_spec body en s W) as H.
-  destruct (run_impl N eff apply body en s) as [si oki].
-  unfold run_spec in H. rewrite spec_Frame in H.
-  destruct (spec_list body s) as [t1 ok2].
-  cbn [fst snd]. intro; subst oki.
-  destruct (ok2 && endk_ok en); destruct H as (E&A&B&C&D); [discriminate|].
-  repeat split; assumption.
+  intros body en s W. unfold run_impl. rewrite exec_Frame.
+  destruct (exec_list body (s, [])) as [[s1 jr1] r1] eqn:LI.
+  destruct r1; [destruct (endk_ok en)| |]; cbn [fst snd].
+  - discriminate.
+  - intros _. destruct (proj1 (proj2 inv body) _ _ _ _ _ W LI go_np) as (es & -> & F).
+    rewrite (revert_to_app es [] s1). cbn. exact F.
+  - intros _. destruct (proj1 (proj2 inv body) _ _ _ _ _ W LI stop_np) as (es & -> & F).
+    rewrite (revert_to_app es [] s1). cbn. exact F.
+  - intros _. apply seq_refl.
 Qed.
 
 (* ------------------------------------------------------------------ *)
@@ -673,41 +693,49 @@ End Proofs.
 Definition mspec := M_Frames.spec mstore meff mapply.
 Definition mspec_list := M_Frames.spec_list mstore meff mapply.
 
+Definition st_of (b : bool) : status := if b then Go else Stop.
+
 Lemma spec_surv :
-  (forall (t : mnode) s s' ok, mspec t s = (s', ok) ->
-     ok = fok t /\ (ok = true -> s_nat s' = surv t ++ s_nat s)) /\
-  (forall (l : mnodes) s s' ok, mspec_list l s = (s', ok) ->
-     ok = fok_list l /\ (ok = true -> s_nat s' = surv_list l ++ s_nat s)).
+  (forall (t : mnode) s s' r, no_panic t = true -> mspec t s = (s', r) ->
+     r = st_of (fok t) /\ (r = Go -> s_nat s' = surv t ++ s_nat s)) /\
+  (forall (l : mnodes) s s' r, no_panic_list l = true -> mspec_list l s = (s', r) ->
+     r = st_of (fok_list l) /\ (r = Go -> s_nat s' = surv_list l ++ s_nat s)).
 Proof.
   apply (node_all meff
-    (fun t => forall s s' ok, mspec t s = (s', ok) -> ok = fok t /\ (ok = true -> s_nat s' = surv t ++ s_nat s))
-    (fun l => forall s s' ok, mspec_list l s = (s', ok) -> ok = fok_list l /\ (ok = true -> s_nat s' = surv_list l ++ s_nat s)));
+    (fun t => forall s s' r, no_panic t = true -> mspec t s = (s', r) ->
+                r = st_of (fok t) /\ (r = Go -> s_nat s' = surv t ++ s_nat s))
+    (fun l => forall s s' r, no_panic_list l = true -> mspec_list l s = (s', r) ->
+                r = st_of (fok_list l) /\ (r = Go -> s_nat s' = surv_list l ++ s_nat s)));
     unfold mspec, mspec_list.
-  - intros e s s' ok H. rewrite spec_NStep in H. unfold mapply in H. cbn [fok surv].
-    destruct (m_ok e); [|destruct (m_partial e)]; inversion H; subst; cbn; split; auto; discriminate.
-  - intros k v s s' ok H. rewrite spec_Write in H. inversion H; subst. cbn. auto.
-  - intros t s s' ok H. rewrite spec_Log in H. inversion H; subst. cbn. auto.
-  - intros b IH evs s s' ok H. rewrite spec_Action in H.
-    destruct (M_Frames.spec_list mstore meff mapply b s) as [s1 ok1] eqn:E.
-    destruct (IH _ _ _ E) as [-> HN]. change (fok (Action b evs)) with (fok_list b).
+  - intros e s s' r NP H. rewrite spec_NStep in H. unfold mapply in H. cbn [fok surv]. cbn [no_panic] in NP.
+    destruct (m_ok e); [|destruct (m_panic e); [discriminate|]; destruct (m_partial e)];
+      inversion H; subst; cbn; split; auto; discriminate.
+  - intros k v s s' r _ H. rewrite spec_Write in H. inversion H; subst. cbn. auto.
+  - intros t s s' r _ H. rewrite spec_Log in H. inversion H; subst. cbn. auto.
+  - intros b IH evs s s' r NP H. rewrite spec_Action in H.
+    destruct (M_Frames.spec_list mstore meff mapply b s) as [s1 r1] eqn:E.
+    destruct (IH _ _ _ NP E) as [-> HN]. change (fok (Action b evs)) with (fok_list b).
     change (surv (Action b evs)) with (if fok_list b then surv_list b else []).
-    destruct (fok_list b); inversion H; subst; split; auto; try discriminate.
+    destruct (fok_list b); cbn [st_of] in *; inversion H; subst; split; auto; try discriminate.
     all: intros _; cbn; apply HN; reflexivity.
-  - intros b IH en c s s' ok H. rewrite spec_Frame in H.
-    destruct (M_Frames.spec_list mstore meff mapply b s) as [s1 ok1] eqn:E.
-    destruct (IH _ _ _ E) as [-> HN].
+  - intros b IH en c s s' r NP H. rewrite spec_Frame in H.
+    destruct (M_Frames.spec_list mstore meff mapply b s) as [s1 r1] eqn:E.
+    destruct (IH _ _ _ NP E) as [-> HN].
     change (fok (Frame b en c)) with ((fok_list b && endk_ok en) || c).
     change (surv (Frame b en c)) with (if frame_kept b en then surv_list b else []).
-    unfold frame_kept. destruct (fok_list b && endk_ok en) eqn:K; inversion H; subst; split; auto.
-    intros _. apply andb_true_iff in K as [K _]. apply HN. exact K.
-  - intros s s' ok H. rewrite spec_nil in H. inversion H; subst. cbn. auto.
-  - intros t IHt r IHr s s' ok H. rewrite spec_cons in H.
-    destruct (M_Frames.spec mstore meff mapply t s) as [s1 ok1] eqn:E.
-    destruct (IHt _ _ _ E) as [-> HN].
-    change (fok_list (ncons t r)) with (fok t && fok_list r).
-    change (surv_list (ncons t r)) with (if fok t then surv_list r ++ surv t else surv t).
-    destruct (fok t).
-    + destruct (IHr _ _ _ H) as [-> HR]. split; [reflexivity|]. intro K.
+    unfold frame_kept. destruct (fok_list b); cbn [st_of andb] in *; [destruct (endk_ok en)|];
+      inversion H; subst; cbn [orb]; split; auto; try (destruct c; reflexivity).
+    all: intros _; apply HN; reflexivity.
+  - intros s s' r _ H. rewrite spec_nil in H. inversion H; subst. cbn. auto.
+  - intros t IHt l IHl s s' r NP H. rewrite spec_cons in H.
+    change (no_panic_list (ncons t l)) with (no_panic t && no_panic_list l) in NP.
+    apply andb_true_iff in NP as [NPt NPl].
+    destruct (M_Frames.spec mstore meff mapply t s) as [s1 r1] eqn:E.
+    destruct (IHt _ _ _ NPt E) as [-> HN].
+    change (fok_list (ncons t l)) with (fok t && fok_list l).
+    change (surv_list (ncons t l)) with (if fok t then surv_list l ++ surv t else surv t).
+    destruct (fok t); cbn [st_of andb] in *.
+    + destruct (IHl _ _ _ NPl H) as [-> HR]. split; [reflexivity|]. intro K.
       rewrite (HR K), (HN eq_refl), app_assoc. reflexivity.
     + inversion H; subst. split; [reflexivity|discriminate].
 Qed.
@@ -746,29 +774,39 @@ Qed.
 
 Definition mwf := wf_fl meff.
 
-Theorem impl_survivors : forall body en, mwf body = true ->
+Theorem impl_survivors : forall body en, mwf body = true -> no_panic_list body = true ->
   snd (m_run_impl body en) = frame_kept body en /\
   s_nat (fst (m_run_impl body en)) = if frame_kept body en then surv_list body else [].
 Proof.
-  intros body en W. pose proof (journal_refines_spec mstore meff mapply body en st0 W) as H.
+  intros body en W NP. pose proof (journal_refines_spec mstore meff mapply body en st0 W) as H.
   unfold m_run_impl. destruct (run_impl mstore meff mapply body en st0) as [si oki].
   unfold run_spec in H. rewrite spec_Frame in H.
-  destruct (M_Frames.spec_list mstore meff mapply body st0) as [s1 ok1] eqn:E.
-  destruct (proj2 spec_surv body _ _ _ E) as [-> HN].
+  destruct (M_Frames.spec_list mstore meff mapply body st0) as [s1 r1] eqn:E.
+  destruct (proj2 spec_surv body _ _ _ NP E) as [-> HN].
   cbn [fst snd]. unfold frame_kept.
-  destruct (fok_list body && endk_ok en) eqn:K; destruct H as (A&B&_); subst oki; split; auto.
-  - rewrite B. apply andb_true_iff in K as [K _]. rewrite (HN K). cbn. apply app_nil_r.
+  destruct (fok_list body); cbn [st_of andb] in *; [destruct (endk_ok en)|];
+    destruct H as (A&B&_); subst oki; split; auto.
+  rewrite B, (HN eq_refl). cbn. apply app_nil_r.
 Qed.
 
-Theorem effect_survives_iff : forall body en m, mwf body = true ->
+Theorem effect_survives_iff : forall body en m, mwf body = true -> no_panic_list body = true ->
   (In m (s_nat (fst (m_run_impl body en))) <-> frame_kept body en = true /\ kept_in_list m body).
 Proof.
-  intros body en m W. destruct (impl_survivors body en W) as [_ ->].
+  intros body en m W NP. destruct (impl_survivors body en W NP) as [_ ->].
   destruct (frame_kept body en) eqn:K.
   - assert (F : fok_list body = true) by (unfold frame_kept in K; apply andb_true_iff in K as [F _]; exact F).
     rewrite (proj2 surv_kept body m F). tauto.
   - split; [intros []|intros [H _]; discriminate].
 Qed.
+
+(* a keeper call that panics — even after partial writes, even under frames whose failures are caught — aborts
+   the transaction: nothing at all is published *)
+Theorem panic_aborts_everything :
+  mwf ex_panic = true /\ no_panic_list ex_panic = false /\
+  snd (m_run_impl ex_panic Return) = false /\
+  s_nat (fst (m_run_impl ex_panic Return)) = [] /\ s_logs (fst (m_run_impl ex_panic Return)) = [] /\
+  s_stor (fst (m_run_impl ex_panic Return)) 1 = 0 /\ s_stor (fst (m_run_impl ex_panic Return)) 2 = 0.
+Proof. vm_compute. repeat split. Qed.
 
 (* the guards are needed: without them the journal does NOT give all-or-nothing *)
 Theorem unjournaled_write_survives_revert :
